@@ -234,9 +234,21 @@ class Interp:
                         if isinstance(t, ast.Name) and t.id == name:
                             return ("assign", mod, st, cnode)
                 if isinstance(st, ast.AnnAssign) and st.value is not None and isinstance(st.target, ast.Name) \
-                        and st.target.id == name and "ClassVar" in ast.unparse(st.annotation):
+                        and st.target.id == name and ("ClassVar" in ast.unparse(st.annotation) or
+                                                      self._plain_class(cnode)):
+                    # an annotated assignment with a value in the body of an ordinary class binds a class
+                    # attribute, ClassVar or not (NamedTuple / dataclass bodies declare fields instead)
                     return ("assign", mod, st, cnode)
         return None
+
+    @staticmethod
+    def _plain_class(cnode):
+        if cnode.decorator_list or cnode.keywords:
+            return False
+        for b in cnode.bases:
+            if ast.unparse(b).split(".")[-1] in ("NamedTuple", "TypedDict", "Enum", "IntEnum", "Protocol", "Generic"):
+                return False
+        return True
 
     def is_subclass(self, cv, other_name):
         return any(c.name == other_name for _, c in self.class_of(cv))
